@@ -77,7 +77,31 @@ class K7(P0):
     key: int = Field(ge=0, no_output=True)   # required, lives in the attribute view only
 
 
+class K8(Schema):
+    # no required field (clear() is allowed), errors collected, a property that depends on a property
+    __options__ = Options(collect_errors=True)
+    o: int = Field(ge=0, required=False)
+    d: int = Field(ge=0, default=5)
+
+    @property
+    @Field(dependencies=['o'])
+    def t(self) -> int:
+        return self.o * 2
+
+    @property
+    @Field(dependencies=['t'])
+    def u(self) -> int:
+        return self.t + 1
+
+
 class K4(DataClass):
+    r: int = Field(ge=0)
+    o: int = Field(ge=0, required=False)
+    im: int = Field(ge=0, immutable=True, default=1)
+
+
+class K4C(DataClass):
+    __options__ = Options(collect_errors=True)
     r: int = Field(ge=0)
     o: int = Field(ge=0, required=False)
     im: int = Field(ge=0, immutable=True, default=1)
@@ -95,6 +119,7 @@ SPEC = {
            ['r', 'o', 'd', 'zz']),
     'K7': (K7, {'a': ('A1', True, False, False), 'h': ('h', False, False, True), 'b': ('b', False, False, False),
                 'key': ('key', True, False, True)}, ['a', 'A1', 'h', 'b', 's', 'key', 'zz']),
+    'K8': (K8, {'o': ('o', False, False, False), 'd': ('d', False, False, False)}, ['o', 'd', 't', 'u', 'zz']),
     'K3': (K3, {'inner': ('inner', True, False, False), 'n': ('n', False, False, False), 'opt': ('opt', False, False, False)},
            ['inner', 'n', 'opt', 'zz']),
 }
@@ -140,6 +165,13 @@ def build(V, name, tag=''):
             kw['b'] = V.int(tag + 's_b', 0, None)
         else:
             absent.append('b')
+    elif name == 'K8':
+        if V.bool(tag + 's_has_o'):
+            kw['o'] = V.int(tag + 's_o', 0, None)
+        if V.bool(tag + 's_has_d'):
+            kw['d'] = V.int(tag + 's_d', 0, None)
+        else:
+            absent.append('d')
     elif name in ('K5', 'K6'):
         kw['r'] = V.int(tag + 's_r', 0, None)
         if V.bool(tag + 's_has_o'):
@@ -291,7 +323,17 @@ def valid(V, name, inst, sig_prefix, det, immutables, dep_changed=False):
                     sig_prefix + ':views-disagree:' + att, lambda: det() + ' ; attribute %s -> %r' % (att, got))
         if immutable and att in immutables:
             V.check(present and data[okey] == immutables[att], sig_prefix + ':immutable-changed:' + att, det)
-    extra = set(data) - {f[0] for f in fields.values()} - ({'s'} if name in ('K2', 'K7') else set())
+    extra = set(data) - {f[0] for f in fields.values()} - ({'s'} if name in ('K2', 'K7') else {'t', 'u'} if name == 'K8' else set())
+    if name == 'K8':
+        # the chain o -> t -> u: whenever a dependency and its dependant are both present they agree, and right after an
+        # assignment to o both dependants are present
+        for k in ('t', 'u'):
+            if k in data:
+                V.check(ok_int(data[k]), sig_prefix + ':nonconforming:' + k, det)
+        if 'o' in data and ('t' in data or dep_changed):
+            V.check(data.get('t') == data['o'] * 2, sig_prefix + ':dependant-stale', det)
+        if 't' in data and ('u' in data or dep_changed):
+            V.check(data.get('u') == data['t'] + 1, sig_prefix + ':dependant-stale:transitive', det)
     if name == 'K5':
         # addition=int: unknown keys are kept, converted
         V.check(all(isinstance(data[k], int) and not isinstance(data[k], bool) for k in extra), sig_prefix + ':unparsed-addition', det)
@@ -311,6 +353,10 @@ ASSIGN_OPS = ('setitem', 'setattr', 'update-dict', 'update-kw', 'setdefault', 'i
 
 
 def _dep_changed(name, raised, op, key, before):
+    if name == 'K8':
+        if raised or op not in ASSIGN_OPS or key != 'o':
+            return False
+        return not (op == 'setdefault' and 'o' in before[0])
     if name not in ('K2', 'K7') or raised or op not in ASSIGN_OPS or key not in (('a', 'b') if op == 'setattr' else ('a', 'A1', 'b')):
         return False
     if op == 'setdefault' and ({'a': 'A1'}.get(key, key)) in before[0]:
@@ -377,13 +423,14 @@ for _n in SPEC:
 
 # ------------------------------------------------------------------ DataClass (attribute API only)
 @ob('dataclass-attrs', marks=['applied', 'raised'], budget=(60, 200),
-    bounds='DataClass with required / optional / immutable int fields: valid state then setattr / delattr with solver key and '
+    bounds='DataClass (plain and with Options(collect_errors=True)) with required / optional / immutable int fields: valid state then setattr / delattr with solver key and '
            'value; afterwards every present attribute conforms, required present, immutable unchanged')
 def dataclass_attrs(V):
     kw = {'r': V.int('s_r', 0, None), 'im': V.int('s_im', 0, 3)}
     if V.bool('s_has_o'):
         kw['o'] = V.int('s_o', 0, None)
-    inst = K4(**kw)
+    cls = V.pick('cls', [K4, K4C])
+    inst = cls(**kw)
     before = {k: v for k, v in inst.__dict__.items() if not k.startswith('__')}
     op = V.pick('op', ['setattr', 'delattr'])
     key = V.pick('key', ['r', 'o', 'im'])
@@ -399,7 +446,7 @@ def dataclass_attrs(V):
     except Exception as e:  # noqa
         raised = e
     after = {k: v for k, v in inst.__dict__.items() if not k.startswith('__')}
-    det = lambda: 'K4 %r ; %s(%s, %r) %s ; after %r' % (before, op, key, v, type(raised).__name__ if raised else 'ok', after)
+    det = lambda: '%s %r ; %s(%s, %r) %s ; after %r' % (cls.__name__, before, op, key, v, type(raised).__name__ if raised else 'ok', after)
     if raised:
         V.check(after == before, 'dc:raised-but-changed', det)
         V.cover('raised')
